@@ -882,6 +882,80 @@ Proof.
   intros E. rewrite E in Hx. congruence.
 Qed.
 
+(* ---------------------------------------------------------------- any number of channels, any flags: multisets *)
+Lemma perm_by_chan {X} : forall (L1 L2 : list (Z * X)),
+  (forall ch, filter (fun e => fst e =? ch) L1 = filter (fun e => fst e =? ch) L2) -> Permutation L1 L2.
+Proof.
+  induction L1 as [|[c x] L1 IH]; intros L2 H.
+  - destruct L2 as [|[c y] L2]; [constructor|]. specialize (H c). cbn [filter fst] in H. now rewrite Z.eqb_refl in H.
+  - assert (Hin : exists A B, L2 = A ++ (c, x) :: B /\ filter (fun e => fst e =? c) A = []).
+    { specialize (H c). cbn [filter fst] in H. rewrite Z.eqb_refl in H. clear IH.
+      induction L2 as [|[c' y] L2 IH2]; [discriminate|]. cbn [filter fst] in H.
+      destruct (Z.eqb_spec c' c) as [->|Hne].
+      - injection H as <- H. exists [], L2. split; reflexivity.
+      - destruct (IH2 H) as (A & B & -> & HA). exists ((c', y) :: A), B. split; [reflexivity|].
+        cbn [filter fst]. destruct (Z.eqb_spec c' c); [contradiction|exact HA]. }
+    destruct Hin as (A & B & -> & HA). apply Permutation_cons_app. apply IH. intros ch.
+    specialize (H ch). rewrite filter_app in H |- *. cbn [filter fst] in H.
+    destruct (Z.eqb_spec c ch) as [->|Hne].
+    + rewrite HA in H |- *. cbn [app] in H |- *. now injection H.
+    + exact H.
+Qed.
+
+Lemma events_chan_filter ty ch : forall l,
+  filter (fun e : Z * spair => fst e =? ch) (events ty l) = map (pair ch) (ref ty ch l).
+Proof.
+  induction l as [|m l IH]; [reflexivity|]. cbn [events ref].
+  destruct (is_on m) eqn:O.
+  - cbn [filter fst]. rewrite andb_true_r. destruct (Z.eqb_spec (m_chan m) ch) as [->|]; [|exact IH].
+    cbn [map]. now rewrite IH.
+  - rewrite andb_false_r. destruct (sigb ty m); [|rewrite andb_false_r; exact IH].
+    cbn [filter fst]. rewrite andb_true_r. destruct (Z.eqb_spec (m_chan m) ch) as [->|]; [|exact IH].
+    cbn [map]. now rewrite IH.
+Qed.
+
+(* the view is a re-ordering of the canonical event list (the order of simultaneous events of different channels
+   is the only thing that may differ) *)
+Lemma view_perm a its iks ich ivel ia : wf_seq a = true -> view a its iks = Ok ia ->
+  Permutation (map (proj ich ivel) ia) (canon ich ivel its iks a).
+Proof.
+  intros Hwf Hv. destruct (view_spec a its iks Hwf) as (ia' & Hv' & Hr & _).
+  rewrite Hv in Hv'. injection Hv' as <-.
+  assert (P : Permutation (map (fun e : Z * pairing => (fst e, strip (snd e))) ia)
+                          (events (eq_types its iks) (sort_abs a))).
+  { apply perm_by_chan. intros ch. rewrite events_chan_filter, <- (Hr ch), filter_map_comm, map_map. cbn [fst].
+    apply map_ext_in. intros e He. apply filter_In in He. destruct He as [_ He]. apply Z.eqb_eq in He.
+    now rewrite He. }
+  unfold canon. apply (Permutation_map (fun e => sproj ich ivel (fst e) (snd e))) in P.
+  rewrite map_map in P. cbn [fst snd] in P.
+  erewrite map_ext; [exact P|]. intros [c p]. apply proj_sproj.
+Qed.
+
+(* equality implies that the two sequences have the same multiset of compared events -- every flag combination,
+   any number of channels *)
+Lemma C17_equal_multiset a b ich its iks ivel : wf_seq a = true -> wf_seq b = true ->
+  equals a b ich its iks ivel = Ok true -> Permutation (canon ich ivel its iks a) (canon ich ivel its iks b).
+Proof.
+  intros Ha Hb He. apply C17_characterise in He. destruct He as (ia & ib & Va & Vb & E).
+  eapply Permutation_trans; [apply Permutation_sym, (view_perm a its iks ich ivel ia Ha Va)|].
+  rewrite E. apply (view_perm b its iks ich ivel ib Hb Vb).
+Qed.
+
+Lemma C17_sensitive_multiset a b ich its iks ivel : wf_seq a = true -> wf_seq b = true ->
+  ~ Permutation (canon ich ivel its iks a) (canon ich ivel its iks b) -> equals a b ich its iks ivel = Ok false.
+Proof.
+  intros Ha Hb Hd. destruct (equals_wf_ok a b ich its iks ivel Ha Hb) as ([|] & E); [|exact E].
+  exfalso. apply Hd. now apply C17_equal_multiset.
+Qed.
+
+(* in particular: an event (note or signature, as compared under the flags) of one side that the other side does
+   not have at all *)
+Lemma C17_sensitive_event a b ich its iks ivel x : wf_seq a = true -> wf_seq b = true ->
+  In x (canon ich ivel its iks a) -> ~ In x (canon ich ivel its iks b) -> equals a b ich its iks ivel = Ok false.
+Proof.
+  intros Ha Hb Hx Hn. apply C17_sensitive_multiset; auto. intros P. apply Hn. eapply Permutation_in; eauto.
+Qed.
+
 (* ---------------------------------------------------------------- message-level corollaries *)
 Lemma ins_sorted_map (g : msg -> msg) x : forall L, (forall y, In y L -> key_le (g x) (g y) = key_le x y) ->
   ins_sorted (g x) (map g L) = map g (ins_sorted x L).
@@ -1136,6 +1210,138 @@ Proof.
     apply cons_inj in E. destruct E as [E _]. apply (f_equal proj_chan) in E. unfold sproj, proj_chan in E. congruence.
 Qed.
 
+(* (S) the signature flags, single-channel sequences *)
+Definition tsb (m : msg) : bool := mtype_eqb (m_type m) TIME_SIGNATURE.
+Definition ksb (m : msg) : bool := mtype_eqb (m_type m) KEY_SIGNATURE.
+
+Lemma sigb_its iks m : sigb (eq_types true iks) m = sigb (eq_types false iks) m && negb (tsb m).
+Proof. unfold sigb, tsb, is_note, is_on, is_off, mtype_eqb. destruct iks, (m_type m); reflexivity. Qed.
+Lemma sigb_iks its m : sigb (eq_types its true) m = sigb (eq_types its false) m && negb (ksb m).
+Proof. unfold sigb, ksb, is_note, is_on, is_off, mtype_eqb. destruct its, (m_type m); reflexivity. Qed.
+
+Lemma events_sub ty ty' (q : msg -> bool) : (forall m, is_on m = true -> q m = true) ->
+  (forall m, sigb ty' m = sigb ty m && q m) ->
+  forall l, events ty' l = filter (fun e => q (fst (snd e))) (events ty l).
+Proof.
+  intros Hon Hs. induction l as [|m l IH]; [reflexivity|]. cbn [events]. rewrite Hs.
+  destruct (is_on m) eqn:O.
+  - cbn [filter fst snd]. now rewrite (Hon m O), IH.
+  - destruct (sigb ty m); cbn [andb]; [|exact IH]. cbn [filter fst snd]. destruct (q m); [now rewrite IH|exact IH].
+Qed.
+
+Lemma on_not_tsb m : is_on m = true -> negb (tsb m) = true.
+Proof. unfold is_on, tsb, mtype_eqb. now destruct (m_type m). Qed.
+Lemma on_not_ksb m : is_on m = true -> negb (ksb m) = true.
+Proof. unfold is_on, ksb, mtype_eqb. now destruct (m_type m). Qed.
+
+Lemma canon_its ich ivel iks a : canon ich ivel true iks a =
+  filter (fun t => negb (mtype_eqb (proj_type t) TIME_SIGNATURE)) (canon ich ivel false iks a).
+Proof.
+  unfold canon. rewrite (events_sub (eq_types false iks) (eq_types true iks) (fun m => negb (tsb m)) on_not_tsb (sigb_its iks)).
+  now rewrite filter_map_comm.
+Qed.
+Lemma canon_iks ich ivel its a : canon ich ivel its true a =
+  filter (fun t => negb (mtype_eqb (proj_type t) KEY_SIGNATURE)) (canon ich ivel its false a).
+Proof.
+  unfold canon. rewrite (events_sub (eq_types its false) (eq_types its true) (fun m => negb (ksb m)) on_not_ksb (sigb_iks its)).
+  now rewrite filter_map_comm.
+Qed.
+
+Lemma one_chan_weaken ty ty' c a : (forall t, tmem t ty' = true -> tmem t ty = true) ->
+  one_chan ty c a = true -> one_chan ty' c a = true.
+Proof.
+  intros H. unfold one_chan. rewrite !forallb_forall. intros Ha m Hm. specialize (Ha m Hm).
+  destruct (tmem (m_type m) ty') eqn:T; [|reflexivity]. now rewrite (H _ T) in Ha.
+Qed.
+Lemma eq_types_its iks t : tmem t (eq_types true iks) = true -> tmem t (eq_types false iks) = true.
+Proof. destruct iks, t; cbn; congruence. Qed.
+Lemma eq_types_iks its t : tmem t (eq_types its true) = true -> tmem t (eq_types its false) = true.
+Proof. destruct its, t; cbn; congruence. Qed.
+
+(* on single-channel well-formed sequences the signature flags only relax (contrast
+   C17_flags_monotone_signature_refuted: orphan note-offs, or several channels) *)
+Lemma C17_flags_monotone_ts a b ich iks ivel ca cb : wf_seq a = true -> wf_seq b = true ->
+  one_chan (eq_types false iks) ca a = true -> one_chan (eq_types false iks) cb b = true ->
+  equals a b ich false iks ivel = Ok true -> equals a b ich true iks ivel = Ok true.
+Proof.
+  intros Ha Hb Ca Cb E. apply (C17_equal_iff_canon_partial a b ich false iks ivel ca cb Ha Hb Ca Cb) in E.
+  apply (C17_equal_iff_canon_partial a b ich true iks ivel ca cb Ha Hb);
+    try (eapply one_chan_weaken; [apply eq_types_its|eassumption]).
+  now rewrite !canon_its, E.
+Qed.
+Lemma C17_flags_monotone_ks a b ich its ivel ca cb : wf_seq a = true -> wf_seq b = true ->
+  one_chan (eq_types its false) ca a = true -> one_chan (eq_types its false) cb b = true ->
+  equals a b ich its false ivel = Ok true -> equals a b ich its true ivel = Ok true.
+Proof.
+  intros Ha Hb Ca Cb E. apply (C17_equal_iff_canon_partial a b ich its false ivel ca cb Ha Hb Ca Cb) in E.
+  apply (C17_equal_iff_canon_partial a b ich its true ivel ca cb Ha Hb);
+    try (eapply one_chan_weaken; [apply eq_types_iks|eassumption]).
+  now rewrite !canon_iks, E.
+Qed.
+
+(* sequences that differ only in their time-signature messages compare equal with ignore_time_signatures *)
+Lemma first_off_filter (q : msg -> bool) ch n : (forall m, is_off m = true -> q m = true) ->
+  forall l, first_off ch n (filter q l) = first_off ch n l.
+Proof.
+  intros Hq. induction l as [|m l IH]; [reflexivity|]. cbn [filter first_off].
+  destruct (offb ch n m) eqn:O.
+  - assert (Q : q m = true) by (apply Hq; unfold offb in O; now destruct (is_off m)).
+    rewrite Q. cbn [first_off]. now rewrite O.
+  - destruct (q m); [cbn [first_off]; now rewrite O|exact IH].
+Qed.
+
+Lemma events_filter ty (q : msg -> bool) : (forall m, is_off m = true -> q m = true) ->
+  (forall m, q m = false -> is_on m = false /\ sigb ty m = false) ->
+  forall l, events ty (filter q l) = events ty l.
+Proof.
+  intros Hoff Hq. induction l as [|m l IH]; [reflexivity|]. cbn [filter events].
+  destruct (q m) eqn:Q.
+  - cbn [events]. now rewrite (first_off_filter q _ _ Hoff), IH.
+  - destruct (Hq m Q) as [-> ->]. exact IH.
+Qed.
+
+Lemma canon_drop_ts ich ivel iks a : canon ich ivel true iks (filter (fun m => negb (tsb m)) a) = canon ich ivel true iks a.
+Proof.
+  unfold canon. rewrite <- filter_sort_abs. f_equal. apply events_filter.
+  - intros m H. unfold is_off, tsb, mtype_eqb in *. now destruct (m_type m).
+  - intros m H. apply negb_false_iff in H. unfold tsb, is_on, sigb, is_note, is_on, is_off, mtype_eqb in *.
+    destruct iks, (m_type m); cbn in *; try discriminate; split; reflexivity.
+Qed.
+Lemma canon_drop_ks ich ivel its a : canon ich ivel its true (filter (fun m => negb (ksb m)) a) = canon ich ivel its true a.
+Proof.
+  unfold canon. rewrite <- filter_sort_abs. f_equal. apply events_filter.
+  - intros m H. unfold is_off, ksb, mtype_eqb in *. now destruct (m_type m).
+  - intros m H. apply negb_false_iff in H. unfold ksb, is_on, sigb, is_note, is_on, is_off, mtype_eqb in *.
+    destruct its, (m_type m); cbn in *; try discriminate; split; reflexivity.
+Qed.
+
+Lemma C17_ts_only a b ich iks ivel ca cb : wf_seq a = true -> wf_seq b = true ->
+  one_chan (eq_types true iks) ca a = true -> one_chan (eq_types true iks) cb b = true ->
+  filter (fun m => negb (tsb m)) a = filter (fun m => negb (tsb m)) b ->
+  equals a b ich true iks ivel = Ok true.
+Proof.
+  intros Ha Hb Ca Cb E. apply (C17_equal_iff_canon_partial a b ich true iks ivel ca cb Ha Hb Ca Cb).
+  now rewrite <- (canon_drop_ts ich ivel iks a), E, canon_drop_ts.
+Qed.
+Lemma C17_ks_only a b ich its ivel ca cb : wf_seq a = true -> wf_seq b = true ->
+  one_chan (eq_types its true) ca a = true -> one_chan (eq_types its true) cb b = true ->
+  filter (fun m => negb (ksb m)) a = filter (fun m => negb (ksb m)) b ->
+  equals a b ich its true ivel = Ok true.
+Proof.
+  intros Ha Hb Ca Cb E. apply (C17_equal_iff_canon_partial a b ich its true ivel ca cb Ha Hb Ca Cb).
+  now rewrite <- (canon_drop_ks ich ivel its a), E, canon_drop_ks.
+Qed.
+
+(* ... and unequal without the flag as soon as the signature events differ *)
+Lemma C17_sigs_differ a b ich its iks ivel ca cb : wf_seq a = true -> wf_seq b = true ->
+  one_chan (eq_types its iks) ca a = true -> one_chan (eq_types its iks) cb b = true ->
+  canon_sigs ich ivel its iks a <> canon_sigs ich ivel its iks b ->
+  equals a b ich its iks ivel = Ok false.
+Proof.
+  intros Ha Hb Ca Cb Hd. destruct (equals_wf_ok a b ich its iks ivel Ha Hb) as ([|] & E); [|exact E].
+  exfalso. apply Hd. now apply (C17_equal_notes_sigs a b ich its iks ivel ca cb Ha Hb Ca Cb E).
+Qed.
+
 (* ================================================================ non-vacuity and concrete perturbations *)
 Definition rx_a : list msg :=
   [mk_ts 0 3 4 0 false; mk_on 0 60 90 0 false; mk_on 0 64 80 0 false; mk_off 0 60 24 false; mk_on 0 60 70 24 false;
@@ -1189,6 +1395,24 @@ Example rx_perturbations :
   equals rx_a rx_sigval false true false false = Ok true /\ equals rx_a rx_sigtick false false true false = Ok true /\
   equals rx_a (rev rx_a) false false false false = Ok true.
 Proof. vm_compute. repeat split. Qed.
+
+(* two channels, ignore_channel: the pitch of one note changed *)
+Definition rx_m_pitch : list msg :=
+  [mk_on 1 60 90 0 false; mk_on 0 65 80 0 false; mk_off 1 60 24 false; mk_on 0 60 70 24 false; mk_off 0 65 30 false;
+   mk_ks 2 (Some K_D) 30 false; mk_off 0 60 48 false; mk_cc 1 7 100 3 false].
+Example rx_multi_event : wf_seq rx_m_pitch = true /\
+  In (0, NOTE_ON, 0, 64, 30, 80, 0, 0, None) (canon true false false false rx_m) /\
+  existsb (fun x => match x with (_, _, _, p, _, _, _, _, _) => p =? 64 end) (canon true false false false rx_m_pitch) = false /\
+  equals rx_m rx_m_pitch true false false false = Ok false.
+Proof.
+  split; [vm_compute; reflexivity|]. split; [vm_compute; auto 10|]. split; vm_compute; reflexivity.
+Qed.
+
+Example rx_sig_flags :
+  filter (fun m => negb (tsb m)) rx_a = filter (fun m => negb (tsb m)) (rx_sigval ++ [mk_cc 1 7 100 3 false]) /\
+  canon_sigs false false false false rx_a <> canon_sigs false false false false rx_sigval /\
+  one_chan (eq_types true false) 0 rx_a = true.
+Proof. split; [vm_compute; reflexivity|]. split; [vm_compute; discriminate|vm_compute; reflexivity]. Qed.
 
 Example rx_relabel :
   equals (removelast rx_a) (set_channel (removelast rx_a) 5) true false false false = Ok true /\
